@@ -139,15 +139,17 @@ fn bounded_key_bytes_string_vec() {
 #[test]
 fn bounded_scan_orphans_exact_and_cleanup() {
     let dir = tempfile::tempdir().unwrap();
-    let (h_shared, h_single, h_lost, h_bad);
+    let (h_shared, h_single, h_lost, h_bad, h_tail);
     {
         let cas: crate::Cas<String> = crate::Cas::open(dir.path(), cfg()).unwrap();
         put(&cas, "a".into(), b"shared content"); put(&cas, "b".into(), b"shared content");
         put(&cas, "c".into(), b"single"); put(&cas, "d".into(), b"will be lost"); put(&cas, "e".into(), b"will be corrupted");
+        put(&cas, "empty".into(), b""); put(&cas, "f".into(), b"will get a tail appended");
         cas.checkpoint().unwrap();
         let st = cas.read_index_state();
         h_shared = st.get_item(&"a".to_string()).unwrap().blob_hash; h_single = st.get_item(&"c".to_string()).unwrap().blob_hash;
         h_lost = st.get_item(&"d".to_string()).unwrap().blob_hash; h_bad = st.get_item(&"e".to_string()).unwrap().blob_hash;
+        h_tail = st.get_item(&"f".to_string()).unwrap().blob_hash;
     }
     let casdir = dir.path().join("cas");
     let orphan = crate::calculate_blob_hash(b"nobody references me");
@@ -156,6 +158,7 @@ fn bounded_scan_orphans_exact_and_cleanup() {
     let invalid2 = op.parent().unwrap().join("not-a-hash"); std::fs::write(&invalid2, b"x").unwrap();
     std::fs::remove_file(casdir.join(h_lost.relative_path())).unwrap();
     std::fs::write(casdir.join(h_bad.relative_path()), b"same length bytes!").unwrap();
+    { use std::io::Write; let mut f = std::fs::OpenOptions::new().append(true).open(casdir.join(h_tail.relative_path())).unwrap(); f.write_all(b" + extra bytes behind an intact prefix").unwrap(); }
     let leftover = dir.path().join("staging").join("leftover.tmp"); std::fs::write(&leftover, b"partial").unwrap();
     // a leftover with the name shape the crate's own staging files have (tempfile's default prefix is `.tmp`)
     let leftover2 = dir.path().join("staging").join(".tmpA1b2C3"); std::fs::write(&leftover2, b"partial too").unwrap();
@@ -173,7 +176,8 @@ fn bounded_scan_orphans_exact_and_cleanup() {
     let mut inv = stats.invalid_files.clone(); inv.sort(); let mut want = vec![invalid1.clone(), invalid2.clone()]; want.sort();
     assert_eq!(inv, want, "invalid files = exactly the stray non-blob files");
     assert_eq!(stats.missing_blobs, vec![h_lost], "missing = exactly the referenced-but-absent blobs");
-    assert_eq!(stats.corrupted_blobs, vec![h_bad], "corrupted = exactly the referenced blobs whose bytes do not match");
+    let mut cb = stats.corrupted_blobs.clone(); cb.sort(); let mut wcb = vec![h_bad, h_tail]; wcb.sort();
+    assert_eq!(cb, wcb, "corrupted = exactly the referenced blobs whose bytes or size do not match (overwritten; tail appended)");
     let mut sf = stats.staging_files.clone(); sf.sort(); let mut wsf = vec![leftover.clone(), leftover2.clone()]; wsf.sort();
     assert_eq!(sf, wsf, "leftover staging files = exactly the files under staging/");
     let res = stats.delete_orphans().unwrap();
@@ -181,6 +185,7 @@ fn bounded_scan_orphans_exact_and_cleanup() {
     assert!(!op.exists() && !invalid1.exists() && !invalid2.exists() && !leftover.exists() && !leftover2.exists(), "clean-up removes exactly the reported garbage");
     assert!(casdir.join(h_shared.relative_path()).exists() && casdir.join(h_single.relative_path()).exists(), "clean-up never removes a referenced blob");
     assert_eq!(cas.get(&"a".to_string()).unwrap().unwrap(), bytes::Bytes::from_static(b"shared content"));
+    assert_eq!(cas.get(&"empty".to_string()).unwrap().unwrap().len(), 0, "the blob of an empty value is a referenced blob, not garbage");
 }
 
 /// bound: one database root whose name is not valid UTF-8
@@ -741,4 +746,109 @@ fn bounded_every_call_returns_on_segment_boundaries() {
         let _ = txc.send(());
     });
     rxc.recv_timeout(std::time::Duration::from_secs(120)).expect("an operation of the single-threaded workload never returned (or failed): see the panic above");
+}
+
+/// bound: one store; a put is in flight (staging file written, not finished) while clean-up of an older leftover runs
+#[test]
+fn bounded_cleanup_spares_inflight_transaction() {
+    let dir = tempfile::tempdir().unwrap();
+    { let cas: crate::Cas<String> = crate::Cas::open(dir.path(), cfg()).unwrap(); put(&cas, "live".to_string(), b"live data"); }
+    let old_left = dir.path().join("staging").join(".tmpOLD111"); std::fs::write(&old_left, b"leftover of a crashed transaction").unwrap();
+    let c2 = Config { scan_orphans_on_startup: true, ..Config::default() };
+    let (cas, stats) = crate::Cas::<String>::open_with_recover(dir.path(), c2).unwrap();
+    let stats = stats.unwrap();
+    assert_eq!(stats.staging_files, vec![old_left.clone()]);
+    let mut tx = cas.put("inflight".to_string()).unwrap(); tx.write(b"written while clean-up runs").unwrap();
+    let res = stats.delete_orphans().unwrap();
+    assert!(res.errors.is_empty());
+    assert!(!old_left.exists(), "the reported leftover is removed");
+    tx.finish().expect("clean-up removes exactly the reported garbage: a transaction that was started after the scan must still be able to finish");
+    assert_eq!(&cas.get(&"inflight".to_string()).unwrap().unwrap()[..], b"written while clean-up runs");
+}
+
+/// bound: 8 blob lengths x 10x10 boundary (start, end) pairs incl. 2^63, 2^64-2, 2^64-1
+#[test]
+fn bounded_range_reads_boundary_triples() {
+    let dir = tempfile::tempdir().unwrap();
+    let cas: crate::Cas<String> = crate::Cas::open(dir.path(), cfg()).unwrap();
+    for (i, l) in [0usize, 1, 2, 17, 4096, 65_536, 65_537, 200_000].into_iter().enumerate() {
+        let content: Vec<u8> = (0..l).map(|j| (j * 31 + i) as u8).collect();
+        let key = format!("k{i}");
+        put(&cas, key.clone(), &content);
+        let lu = l as u64;
+        let pts = [0u64, 1, lu.saturating_sub(1), lu, lu + 1, lu / 2, 1 << 32, 1 << 63, u64::MAX - 1, u64::MAX];
+        for &s_ in &pts { for &e in &pts {
+            let r = std::panic::catch_unwind(std::panic::AssertUnwindSafe(|| cas.get_range(&key, s_, e)));
+            let r = r.unwrap_or_else(|_| panic!("get_range panicked for L={l} start={s_} end={e}"));
+            if s_ <= e {
+                let (lo, hi) = (s_.min(lu) as usize, e.min(lu) as usize);
+                let got = r.unwrap_or_else(|er| panic!("get_range({s_}, {e}) on a blob of length {l} was rejected ({er:?}); it must clamp")).expect("key present");
+                assert!(got[..] == content[lo..hi], "get_range != slice for L={l} start={s_} end={e}");
+            } else if s_ < lu {
+                assert!(r.is_err(), "start > end with start < L must be rejected (L={l} start={s_} end={e})");
+            }
+        }}
+        assert_eq!(cas.get_size(&key).unwrap(), Some(lu));
+    }
+}
+
+/// bound: every history of at most 4 steps over {put(a,X), put(a,Y), put(b,X), remove(a), remove_range(all), checkpoint,
+/// clean restart}, N=2; after each history: a copy of the directory taken while the handle is alive (a kill) and a clean
+/// reopen must both show exactly the live state (keys, contents, sizes, reference counts, statistics)
+#[test]
+fn bounded_reopen_equivalence_small_histories() {
+    type Snap = (Vec<(String, Vec<u8>, u64)>, Vec<(BlobHash, u32)>, u64, u64);
+    fn snap(cas: &crate::Cas<String>) -> Snap {
+        let st = cas.read_index_state();
+        let keys: Vec<(String, BlobHash, u64)> = st.iter().map(|(k, i)| (k.clone(), i.blob_hash, i.blob_size)).collect();
+        let mut refs: Vec<(BlobHash, u32)> = st.known_blobs().map(|(h, c)| (*h, *c)).collect(); refs.sort();
+        drop(st);
+        let items = keys.into_iter().map(|(k, _, sz)| { let v = cas.get(&k).unwrap().unwrap().to_vec(); (k, v, sz) }).collect();
+        let stats = cas.stats();
+        (items, refs, stats.cas.unique_blobs, stats.cas.total_bytes)
+    }
+    fn copy_dir(from: &std::path::Path, to: &std::path::Path) {
+        std::fs::create_dir_all(to).unwrap();
+        for e in std::fs::read_dir(from).unwrap().flatten() {
+            let p = e.path(); let t = to.join(e.file_name());
+            if p.is_dir() { copy_dir(&p, &t); } else if e.file_name() != "LOCK" { std::fs::copy(&p, &t).unwrap(); }
+        }
+    }
+    let names = ["put(a,X)", "put(a,Y)", "put(b,X)", "remove(a)", "remove_range(..)", "checkpoint", "restart"];
+    let mut count = 0u32;
+    // N=2: every history of <= 4 steps (each segment's first op triggers a checkpoint); N=3: every history of <= 3 steps
+    // (several operations stay in the un-checkpointed tail)
+    for (n_ops, max_len) in [(2u64, 4u32), (3, 3)] {
+    let c = Config { num_ops_per_wal: NonZeroU64::new(n_ops).unwrap(), scan_orphans_on_startup: false, sync_mode: crate::types::SyncMode::Async, ..Config::default() };
+    for len in 1..=max_len {
+        for code in 0..7u32.pow(len) {
+            let steps: Vec<u32> = (0..len).map(|i| (code / 7u32.pow(i)) % 7).collect();
+            if steps.first() == Some(&6) || steps.first() == Some(&5) { continue; } // start with an operation on data
+            let dir = tempfile::tempdir().unwrap();
+            let mut cas: Option<crate::Cas<String>> = Some(crate::Cas::open(dir.path(), c.clone()).unwrap());
+            let what: Vec<String> = std::iter::once(format!("N={n_ops}")).chain(steps.iter().map(|s| names[*s as usize].to_string())).collect();
+            for st in &steps {
+                let h = cas.as_ref().unwrap();
+                match st {
+                    0 => put(h, "a".into(), b"content X"), 1 => put(h, "a".into(), b"content Y, longer"), 2 => put(h, "b".into(), b"content X"),
+                    3 => { h.remove(&"a".to_string()).unwrap(); }
+                    4 => { h.remove_range("a".to_string()..="z".to_string()).unwrap(); }
+                    5 => h.checkpoint().unwrap(),
+                    _ => { cas = None; cas = Some(crate::Cas::open(dir.path(), c.clone()).unwrap_or_else(|e| panic!("history {what:?}: clean restart failed: {e:?}"))); }
+                }
+            }
+            let live = snap(cas.as_ref().unwrap());
+            // a kill: the directory as it is while the handle is alive
+            let killed = tempfile::tempdir().unwrap();
+            copy_dir(dir.path(), killed.path());
+            { let k = crate::Cas::<String>::open(killed.path(), c.clone()).unwrap_or_else(|e| panic!("history {what:?}: open after a kill failed: {e:?}"));
+              assert_eq!(snap(&k), live, "history {what:?}: the state recovered after a kill differs from the acknowledged state"); }
+            cas = None;
+            let again = crate::Cas::<String>::open(dir.path(), c.clone()).unwrap_or_else(|e| panic!("history {what:?}: reopen failed: {e:?}"));
+            assert_eq!(snap(&again), live, "history {what:?}: a clean restart changed the observable state");
+            count += 1;
+        }
+    }
+    }
+    assert!(count > 1800);
 }
